@@ -450,6 +450,14 @@ func vSemPolicy(name string, maxPeers, maxIngress int) *networkv1.NetworkPolicy 
 	}
 	// rules only for the directions the policy applies to (with policyTypes unset, having egress rules is what
 	// makes the policy apply to egress)
+	// rules of a direction that policyTypes does not list are legal and ignored by the semantics: the quick tier adds
+	// them only for the directions that apply, plus one fixed rule of the unlisted direction as a choice
+	if !vAppliesIngress(np) && nondetBool() {
+		np.Spec.Ingress = append(np.Spec.Ingress, networkv1.NetworkPolicyIngressRule{Ports: vPorts(1), From: []networkv1.NetworkPolicyPeer{vSemPeer(2)}})
+	}
+	if len(np.Spec.PolicyTypes) != 0 && !vAppliesEgress(np) && nondetBool() {
+		np.Spec.Egress = append(np.Spec.Egress, networkv1.NetworkPolicyEgressRule{Ports: vPorts(1), To: []networkv1.NetworkPolicyPeer{vSemPeer(2)}})
+	}
 	if vAppliesIngress(np) {
 		for i, n := 0, nondetChoice(maxIngress+1); i < n; i++ {
 			np.Spec.Ingress = append(np.Spec.Ingress, networkv1.NetworkPolicyIngressRule{Ports: vPorts(nondetChoice(3)), From: vSemPeers(maxPeers)})
@@ -504,7 +512,7 @@ func vSemWorld() *vWorld {
 	return w
 }
 
-// BOUND: cluster: namespaces ns1 team=a, ns2 team=b; pods web 10.0.0.1 and db 10.0.0.2 on the node, api 10.0.0.4 (ns1, app=web) and web2 10.0.0.3 (ns2, app=web) on another node; one policy in ns1: podSelector over {all, app=web, app=db, app in (db, cache)}, policyTypes over {unset, [Ingress], [Egress], both}, 0..1 ingress rule and 0..1 egress rule, each with ports over {none, tcp 80, udp 53 + tcp 80} and 0..1 peers (thorough: 0..2) out of 8 peer forms (pod selector by labels and set-based, namespace selector, both, all pods, ip block with and without exception); flow: any IPv4 source and destination, tcp or udp, any destination port; forwarded traffic (FORWARD chain), first packet of a connection
+// BOUND: cluster: namespaces ns1 team=a, ns2 team=b; pods web 10.0.0.1 and db 10.0.0.2 on the node, api 10.0.0.4 (ns1, app=web) and web2 10.0.0.3 (ns2, app=web) on another node; one policy in ns1: podSelector over {all, app=web, app=db, app in (db, cache)}, policyTypes over {unset, [Ingress], [Egress], both}, 0..1 ingress rule and 0..1 egress rule of the directions that apply (and optionally one fixed rule of a direction policyTypes does not list, which the semantics ignore), each with ports over {none, tcp 80, udp 53 + tcp 80} and 0..1 peers (thorough: 0..2) out of 8 peer forms (pod selector by labels and set-based, namespace selector, both, all pods, ip block with and without exception); flow: any IPv4 source and destination, tcp or udp, any destination port; forwarded traffic (FORWARD chain), first packet of a connection
 // ASSUME: packet walk models iptables filter traversal of FORWARD with policy ACCEPT, -s/-d/-p, set match (hash:ip, hash:net with nomatch), multiport --dports, conntrack RELATED,ESTABLISHED never matching a new connection; traffic between a pod and the node's own processes (INPUT / OUTPUT) is outside the walk
 func VerifC16_q_onePolicy() {
 	w := vSemWorld()
